@@ -18,7 +18,7 @@ import (
 
 func init() { hx.Register("C02", Run) }
 
-var setters = []string{"subject", "gen", "org", "ua", "msgid", "fname", "ename", "fdesc", "edesc", "pdesc", "cid", "acid", "dispname",
+var setters = []string{"subject", "gen", "org", "ua", "msgid", "fname", "ename", "fdesc", "edesc", "pdesc", "cid", "acid", "dispname", "uaonly", "xmonly",
 	// the setters that take the display name as an argument of its own and do the formatting themselves
 	"fromfmt", "tofmt", "ccfmt", "replyfmt", "mdnfmt"}
 
@@ -53,6 +53,12 @@ func build(setter string, val string, wordB bool) (*gomail.Msg, *bytex.MsgSpec, 
 		s.Gen = append(s.Gen, bytex.KV{K: "Organization", V: []string{val}})
 	case "ua":
 		s.Gen = append(s.Gen, bytex.KV{K: "User-Agent", V: []string{val}}, bytex.KV{K: "X-Mailer", V: []string{val}})
+	case "uaonly":
+		// only one of the two fields is set by the caller (generic setter): it must stay what it is and the other
+		// one must not appear
+		s.Gen = append(s.Gen, bytex.KV{K: "User-Agent", V: []string{val}})
+	case "xmonly":
+		s.Gen = append(s.Gen, bytex.KV{K: "X-Mailer", V: []string{val}})
 	case "msgid":
 		s.Gen = append(s.Gen, bytex.KV{K: "Message-ID", V: []string{"<" + val + ">"}})
 	case "fname":
@@ -282,6 +288,9 @@ func runCase(r *hx.Run, c hx.Case) {
 		}
 		seen := map[string]bool{}
 		for i, n := range names {
+			if (setter == "uaonly" && n == "X-Mailer") || (setter == "xmonly" && n == "User-Agent") {
+				r.Fail(c.ID, "header-"+setter+"-extra-field", fmt.Sprintf("%s header section has the field %q, which the caller did not set (only the other one of User-Agent / X-Mailer was set)", where, n))
+			}
 			if !allowed[n] {
 				r.Fail(c.ID, "header-"+setter+"-extra-field", fmt.Sprintf("%s header section has unexpected field %q (value %q)", where, n, val))
 			}
@@ -294,7 +303,7 @@ func runCase(r *hx.Run, c hx.Case) {
 			check := false
 			switch {
 			case si == 0 && n == "Subject" && setter == "subject", si == 0 && n == "Organization" && setter == "org",
-				si == 0 && n == "User-Agent" && setter == "ua":
+				si == 0 && n == "User-Agent" && (setter == "ua" || setter == "uaonly"), si == 0 && n == "X-Mailer" && setter == "xmonly":
 				want, check = val, true
 			case si > 0 && n == "Content-Description" && (setter == "fdesc" || setter == "edesc" || setter == "pdesc"):
 				want, check = val, true
